@@ -183,14 +183,30 @@ class _Inliner:
                     stored = _assigned(body)
                     for p, a in b.items():
                         a2 = self.expr(copy.deepcopy(a), stack, depth)
-                        if _simple(a2) and p not in stored:
-                            mapping[p] = a2
+                        pure = not any(isinstance(x, (ast.Call, ast.Await, ast.NamedExpr)) for x in ast.walk(a2))
+                        if (_simple(a2) or pure) and p not in stored:
+                            mapping[p] = a2        # side-effect free argument of a parameter the helper never rebinds
                         else:
                             nm = p if p not in self.taken else self.fresh(p, h)
                             self.taken.add(nm)
                             mapping[p] = nm
                             pre.append(ast.copy_location(ast.Assign(targets=[ast.Name(id=nm, ctx=ast.Store())], value=a2), s))
+                    # locals that are returned straight into the caller's targets take the targets' names
+                    direct = {}
+                    if kind == 'assign' and ret is not None:
+                        tg = s.targets[0]
+                        if isinstance(ret, ast.Name) and isinstance(tg, ast.Name) and ret.id in stored and ret.id not in b:
+                            direct[ret.id] = tg.id
+                        elif isinstance(ret, ast.Tuple) and isinstance(tg, ast.Tuple) and len(ret.elts) == len(tg.elts) and \
+                                all(isinstance(x, ast.Name) for x in list(ret.elts) + list(tg.elts)) and \
+                                len({x.id for x in ret.elts}) == len(ret.elts) and \
+                                all(x.id in stored and x.id not in b for x in ret.elts):
+                            direct = {r_.id: t_.id for r_, t_ in zip(ret.elts, tg.elts)}
                     for loc in sorted(stored - set(b)):
+                        if loc in direct:
+                            if direct[loc] != loc:
+                                mapping[loc] = direct[loc]
+                            continue
                         nm = loc if loc not in self.taken else self.fresh(loc, h)
                         self.taken.add(nm)
                         if nm != loc:
@@ -200,7 +216,9 @@ class _Inliner:
                     tail = []
                     if ret is not None:
                         rv = sub.visit(copy.deepcopy(ret))
-                        if kind == 'assign':
+                        if kind == 'assign' and direct:
+                            tail = []        # the helper's locals already are the caller's targets
+                        elif kind == 'assign':
                             tail = [ast.copy_location(ast.Assign(targets=s.targets, value=rv), s)]
                         elif kind == 'return':
                             tail = [ast.copy_location(ast.Return(value=rv), s)]
